@@ -55,6 +55,12 @@ impl DeleteVector {
         Ok(())
     }
 
+    /// Verification hook: the deleted row ids.
+    #[cfg(risinglight_verif)]
+    pub fn verif_deletes(&self) -> Vec<u32> {
+        self.deletes.clone()
+    }
+
     pub fn new(dv_id: u64, rowset_id: u32, deletes: Vec<DeleteRecord>) -> Self {
         let mut deletes = deletes.into_iter().map(|x| x.row_id).collect_vec();
         deletes.sort_unstable();
